@@ -143,6 +143,9 @@ def run(ctx, report: Report) -> None:
                          f'match_selectors {"evaluates" if d.entered else "skips"} the alternatives of a list with is_html={lst_html} '
                          f'in a document with is_html={doc_html}; the gate must be `not is_html or self.is_html`')
 
+    from .sem import list_context_table
+    list_context_table(ctx, r3)
+
     # ---- R4 ----------------------------------------------------------------------------------------------
     r4 = report.rule('C05-R4', 'list flags by pseudo-class', floor=5)
     _, po = src.func('css_parser.CSSParser.parse_pseudo_open')
@@ -181,3 +184,5 @@ def run(ctx, report: Report) -> None:
     from .sem import comma_tables, implied_universal_tables
     comma_tables(ctx, r5)
     implied_universal_tables(ctx, r5)
+    from .sem import single_token_table
+    single_token_table(ctx, r5)
